@@ -2307,3 +2307,33 @@ CASES += [
         }
     }"""),
 ]
+
+CASES += [
+    # ------------------------------------------------------------------ RH (round 9: C02-r9m2, C04-r9m2)
+    dict(name="rh-propagate-resets-carried-length", file=BT, rule="RH", props=["C02", "C04"], expect="displaced-keeps-length",
+         old="""    let mut searcher = itm;
+    let mut pos = pos;""",
+         new="""    let mut searcher = HashTableElement { psl: 0, ..itm };
+    let mut pos = pos;"""),
+    dict(name="rh-propagate-starts-behind-given-slot", file=BT, rule="RH", props=["C02", "C04"], expect="grow:rehome",
+         old="""    let mut searcher = itm;
+    let mut pos = pos;""",
+         new="""    let mut searcher = itm;
+    searcher.psl += 1;
+    let mut pos = (pos + 1) % cap;""",
+         more=[(BT, """                    self.propagate(cur_itm, pos);
+                    let ptr = self.alloc.alloc(elem);
+                    let entry = HashTableElement::new(ptr, hash, psl);
+                    self.len += 1;
+                    self.tbl[pos] = entry;
+                    return ptr;""", """                    let ptr = self.alloc.alloc(elem);
+                    self.tbl[pos] = HashTableElement::new(ptr, hash, psl);
+                    self.len += 1;
+                    propagate(&mut self.tbl, self.cap, cur_itm, pos);
+                    return ptr;""")]),
+    dict(name="rh-propagate-rebuilds-element-with-its-length-ok", file=BT, rule="RH", props=["C02", "C04"], expect=None,
+         old="""    let mut searcher = itm;
+    let mut pos = pos;""",
+         new="""    let mut searcher = HashTableElement { psl: itm.psl, ..itm };
+    let mut pos = pos;"""),
+]
